@@ -6,6 +6,7 @@ toolchain go1.23.5
 
 require (
 	github.com/evolbioinfo/goalign v0.0.0
+	github.com/ulikunitz/xz v0.5.10
 	pgregory.net/rapid v1.3.0
 )
 
@@ -24,7 +25,6 @@ require (
 	github.com/shurcooL/sanitized_anchor_name v1.0.0 // indirect
 	github.com/spf13/cobra v1.5.0 // indirect
 	github.com/spf13/pflag v1.0.5 // indirect
-	github.com/ulikunitz/xz v0.5.10 // indirect
 	golang.org/x/exp v0.0.0-20200224162631-6cc2880d07d6 // indirect
 	golang.org/x/sys v0.8.0 // indirect
 	gonum.org/v1/gonum v0.9.3 // indirect
